@@ -338,7 +338,7 @@ class Rewriter:
             t = self._sub('ref', r'\b' + re.escape(r) + r'\s*\.(?=\s*[A-Za-z_])', r + '->', t)
         t = self._sub('this', r'\*\s*this\b', 'self', t)
         # an object passed by reference: `f(*p)` -> `f(p)` (references are pointers in the generated C)
-        t = self._sub('deref_arg', r'([(,]\s*)\*\s*([A-Za-z_]\w*(?:->\w+)*)\s*(?=[,)])', r'\1\2', t)
+        t = self._sub('deref_arg', r'((?<=\w)\(\s*|,\s*)\*\s*([A-Za-z_]\w*(?:->\w+)*)\s*(?=[,)])', r'\1\2', t)
         t = self._sub('this', r'\bthis\b', 'self', t)
         # bare members
         def member(m):
